@@ -1,6 +1,6 @@
 """The flow shared by all units: corpus -> expansions -> Verus modules -> obligations -> Kani twins -> replay."""
 import os, re, shutil, time
-from .. import core, expand, assemble, run_kani, replay
+from .. import core, expand, assemble, run_kani, replay, rtok
 
 class Unit:
     pid_list = ()
@@ -51,6 +51,11 @@ class Unit:
         for p in progs:
             if p.name not in items:
                 continue
+            self.item_text = getattr(self, 'item_text', {})
+            try:
+                self.item_text[p.name] = ' '.join(rtok.render(getattr(it, 'toks', [])) for it in items[p.name])
+            except Exception:
+                self.item_text[p.name] = None
             why = self.skip_verus(ctx, p)
             if why:
                 ctx.not_verified_by_verus.add('%s: %s' % (p.name, why))
